@@ -52,8 +52,14 @@ def find_step(ctx, appenders):
 
 
 def protected(f, node):
+    """The enclosing try with a catch-all handler that does something (a handler whose whole body is a bare `raise` — and a
+    try without finally — protects nothing: it is the same as no handler)."""
     for p, field in enclosing(f.node, node):
         if isinstance(p, ast.Try) and field == 'body' and any(is_catch_all(h) for h in p.handlers):
+            noop = all(len(h.body) == 1 and isinstance(h.body[0], ast.Raise) and h.body[0].exc is None
+                       for h in p.handlers if is_catch_all(h)) and not p.finalbody
+            if noop:
+                continue
             return p
     return None
 
